@@ -194,6 +194,9 @@ func (ix *BM25SearchIndex) Add(id uint32, text string) error {
 		ix.removeInternal(id)
 	}
 
+	// The ID may still carry a pending soft delete; the document being added is live
+	ix.deletedDocs.Remove(id)
+
 	normText := normalize(text)
 	tokens := tokenize(normText)
 	docLen := len(tokens)
